@@ -54,6 +54,21 @@ def degenerate_state(model, rng):
     return v
 
 
+def multiplet_state(model, rng):
+    """a state whose middle cut has the Schmidt values (0.7, 0.5, 0.5, 0.1)/norm: an exactly degenerate pair that is NOT the leading one, so a limit M = 2
+    cuts through the multiplet (the bond-limit and discarded-weight clauses must hold for the limit as given, whichever of the two degenerate vectors survives)"""
+    n = len(model.basis)
+    dims = [b.nbas for b in model.basis]
+    dl, dr = int(np.prod(dims[: n // 2])), int(np.prod(dims[n // 2:]))
+    k = min(dl, dr, 4)
+    sv = np.array([0.7, 0.5, 0.5, 0.1][:k])
+    ql, _ = np.linalg.qr(rng.normal(size=(dl, dl)))
+    qr_, _ = np.linalg.qr(rng.normal(size=(dr, dr)))
+    m = (ql[:, :k] * sv[None, :]) @ qr_[:, :k].T
+    v = m.reshape(-1)
+    return v / np.linalg.norm(v)
+
+
 def worker(case, led):
     name, n, seed, tier = case
     rng = np.random.default_rng([seed, n, 77, sum(map(ord, name))])
@@ -73,6 +88,11 @@ def worker(case, led):
             states.append(("bell-pairs(degenerate singular values)", Mps.from_dense(model, dv)))
         except Exception as e:
             led.error("degenerate_state", e)
+        if n >= 4:
+            try:
+                states.append(("interior degenerate multiplet at the middle cut", Mps.from_dense(model, multiplet_state(model, rng))))
+            except Exception as e:
+                led.error("multiplet_state", e)
     # operators and density operators: the same contract on the operator-Schmidt spectra (site index pairs (up, down) grouped per site)
     try:
         from renormalizer.mps import MpDm, Mpo
@@ -155,6 +175,14 @@ def worker(case, led):
                 lb = np.sqrt(max([tail(spectra[b], kept[b]) for b in range(n - 1)] + [0.0]))
                 led.check(err <= ub + KE * nrm0, f"post:{fn}:error_upper_bound", fn,
                           f"||psi-psi_c||={err:.3e} > sqrt(sum of discarded weights)={ub:.3e} (kept {kept})", key + ("ub",), fields, rep, nontriv)
+                if crit == "fixed":
+                    # the property's bound is stated for the limit as GIVEN: with M_b kept at bond b the error is at most the root of the summed tails beyond M_b of the
+                    # original spectra (TT-SVD / Oseledets; projections only lower singular values) - keeping fewer than the limit allows must not exceed it either
+                    lim_ = kw.get("per_bond") or [kw["M"]] * (n + 1)
+                    ub_lim = np.sqrt(sum(tail(spectra[b], lim_[b + 1]) for b in range(n - 1)))
+                    led.check(err <= ub_lim + KE * nrm0, f"post:{fn}:error_upper_bound_for_the_given_limits", fn,
+                              f"||psi-psi_c||={err:.3e} > sqrt(sum over bonds of the weight beyond the limit)={ub_lim:.3e} (limits {list(lim_)}, kept {kept})",
+                              key + ("ub-lim",), fields, rep, nontriv)
                 led.check(err >= lb - KE * nrm0, f"post:{fn}:error_lower_bound", fn,
                           f"||psi-psi_c||={err:.3e} < largest single-bond discarded weight {lb:.3e}", key + ("lb",), fields, rep, nontriv)
                 # --- lossless when the limit is not binding
